@@ -131,7 +131,7 @@ def render_affine(draw, coefs, const, env, allow_vector_forms=True, _inner=False
                 # element of A @ x
                 other = [draw(st.sampled_from(COEFS)) for _ in el]
                 A = [other, sub] if draw(st.booleans()) else [sub, other]
-                r = ["elem", ["matvec", A, V, draw(st.sampled_from(["op", "fn"]))], A.index(sub)]
+                r = ["elem", ["matvec", A, V, draw(st.sampled_from(["op", "fn", "op_f", "fn_f"]))], A.index(sub)]
                 forms.append("(A@x)[i]")
             elif style in ("lincomb", "vsum"):
                 r = ["lincomb", sub, V, draw(st.sampled_from(["c@x", "x@c", "list@x", "x@list", "LinearCombination"]))]
@@ -374,7 +374,7 @@ def lp_models(draw, want=None):
                 full = {nm: 0.0 for nm in names}
                 full.update({nm: float(a) for a, nm in zip(row, el)})
                 rows.append([[full[nm] for nm in names], sns, float(b)])
-            cons.append({"kind": "vector", "lhs": ["matvec", A, ["vvar", v["name"]], draw(st.sampled_from(["op", "fn"]))],
+            cons.append({"kind": "vector", "lhs": ["matvec", A, ["vvar", v["name"]], draw(st.sampled_from(["op", "fn", "op_f", "fn_f"]))],
                          "sense": sns, "rhs": {"arr": bs} if draw(st.booleans()) else {"list": bs},
                          "written": draw(st.sampled_from(["direct", "reflected"])) if sns != "==" else "direct", "rows": rows})
             forms.append("A@x<=b")
